@@ -455,6 +455,7 @@ func TestInstanceCacheHistories(t *testing.T) {
 				delta := time.Duration(k) * 10 * time.Minute
 				history = append(history, fmt.Sprintf("tick(+%v)", delta))
 				var refreshSet []gostatsd.Source
+				cachedBefore := len(model)
 				for s, e := range model {
 					switch {
 					case delta > idle:
@@ -464,6 +465,11 @@ func TestInstanceCacheHistories(t *testing.T) {
 					}
 				}
 				before := len(prov.snapshotCalls())
+				// the harness stands in for the ticker's clock: a ticker the provider has stopped does not tick. Without a running
+				// refresh ticker nothing cached is ever refreshed or evicted again.
+				if clk.Len() == 0 && cachedBefore > 0 {
+					fail("C12:refresh-ticker-stopped", "the provider has no running refresh ticker any more although %d entries are cached", cachedBefore)
+				}
 				select {
 				case tick <- time.Now().Add(delta):
 				case <-time.After(30 * time.Second):
